@@ -22,8 +22,13 @@ pub enum Role {
     NestedComponent,
     /// component and alternative whose type is an anonymous constructed type: the hoisted item is named after them
     HoistParent,
+    /// type assignments of the other kinds (CHOICE, ENUMERATED, SEQUENCE OF, a constrained INTEGER)
+    TypeChoice,
+    TypeEnumerated,
+    TypeCollection,
+    TypeDelegate,
 }
-const ROLES: [Role; 8] = [Role::Module, Role::Type, Role::Component, Role::Alternative, Role::Enumeral, Role::Value, Role::NestedComponent, Role::HoistParent];
+const ROLES: [Role; 12] = [Role::Module, Role::Type, Role::Component, Role::Alternative, Role::Enumeral, Role::Value, Role::NestedComponent, Role::HoistParent, Role::TypeChoice, Role::TypeEnumerated, Role::TypeCollection, Role::TypeDelegate];
 
 fn upper_first(s: &str) -> String {
     let mut c = s.chars();
@@ -42,6 +47,10 @@ fn source(role: Role, name: &str) -> String {
         Role::Enumeral => format!("Mq1 DEFINITIONS AUTOMATIC TAGS ::= BEGIN\nTq1 ::= ENUMERATED {{ {name}, eq2 }}\nTq2 ::= SEQUENCE {{ fq1 Tq1 DEFAULT {name} }}\nEND\n"),
         Role::Value => format!("Mq1 DEFINITIONS AUTOMATIC TAGS ::= BEGIN\n{name} INTEGER ::= 5\nTq1 ::= SEQUENCE {{ fq1 INTEGER DEFAULT {name} }}\nEND\n"),
         Role::NestedComponent => format!("Mq1 DEFINITIONS AUTOMATIC TAGS ::= BEGIN\nTq1 ::= SEQUENCE {{ fq1 SEQUENCE {{ {name} BOOLEAN }}, fq2 CHOICE {{ {name} NULL, cq3 BOOLEAN }} }}\nEND\n"),
+        Role::TypeChoice => format!("Mq1 DEFINITIONS AUTOMATIC TAGS ::= BEGIN\n{name} ::= CHOICE {{ cq1 BOOLEAN, cq2 NULL }}\nTq2 ::= SEQUENCE {{ fq2 {name} }}\nEND\n"),
+        Role::TypeEnumerated => format!("Mq1 DEFINITIONS AUTOMATIC TAGS ::= BEGIN\n{name} ::= ENUMERATED {{ eq1, eq2 }}\nTq2 ::= SEQUENCE {{ fq2 {name} }}\nEND\n"),
+        Role::TypeCollection => format!("Mq1 DEFINITIONS AUTOMATIC TAGS ::= BEGIN\n{name} ::= SEQUENCE OF BOOLEAN\nTq2 ::= SEQUENCE {{ fq2 {name} }}\nEND\n"),
+        Role::TypeDelegate => format!("Mq1 DEFINITIONS AUTOMATIC TAGS ::= BEGIN\n{name} ::= INTEGER (0..7)\nTq2 ::= SEQUENCE {{ fq2 {name} }}\nEND\n"),
         Role::HoistParent => format!("Mq1 DEFINITIONS AUTOMATIC TAGS ::= BEGIN\nTq1 ::= SEQUENCE {{ {name} SEQUENCE {{ fq8 BOOLEAN }}, fq2 INTEGER }}\nTq2 ::= CHOICE {{ {name} SET {{ fq9 NULL }}, cq3 BOOLEAN }}\nEND\n"),
     }
 }
@@ -133,6 +142,23 @@ fn judge(role: Role, name: &str, generated: &str) -> Result<Vec<(String, String)
             }
             vec![Found { ident: it.name.clone(), annotation: it.attrs.kv("identifier").map(|s| s.to_string()), annotated_role: true }]
         }
+        Role::TypeChoice | Role::TypeEnumerated | Role::TypeCollection | Role::TypeDelegate => {
+            // the one struct/enum item that is neither Tq2 nor a hoisted helper (Anonymous*/Inner*)
+            let it = m
+                .items
+                .iter()
+                .find(|i| matches!(i.kind, Kind::Struct { .. } | Kind::Enum { .. }) && i.name != "Tq2" && !i.name.starts_with("Anonymous") && !i.name.starts_with("Inner"))
+                .ok_or("type item not found")?;
+            if let Some(t2) = m.find("Tq2") {
+                if let Kind::Struct { fields, .. } = &t2.kind {
+                    let f2 = fields.iter().find(|f| f.name == "fq2").map(|f| f.ty.clone()).unwrap_or_default();
+                    if f2 != it.name {
+                        out.push(("reference-spelled-differently".into(), format!("type `{}` is referenced as `{f2}`", it.name)));
+                    }
+                }
+            }
+            vec![Found { ident: it.name.clone(), annotation: it.attrs.kv("identifier").map(|s| s.to_string()), annotated_role: true }]
+        }
         Role::Component => {
             let it = m.find("Tq1").ok_or("Tq1 missing")?;
             let Kind::Struct { fields, .. } = &it.kind else { return Err("Tq1 not a struct".into()) };
@@ -196,7 +222,7 @@ fn judge(role: Role, name: &str, generated: &str) -> Result<Vec<(String, String)
         let id = f.ident.strip_prefix("r#").unwrap_or(&f.ident);
         // documented case rules
         let case_ok = match role {
-            Role::Type => id.starts_with(|c: char| c.is_uppercase()) && !id.trim_start_matches("R_").contains('_'),
+            Role::Type | Role::TypeChoice | Role::TypeEnumerated | Role::TypeCollection | Role::TypeDelegate => id.starts_with(|c: char| c.is_uppercase()) && !id.trim_start_matches("R_").contains('_'),
             Role::Component | Role::Module => !id.chars().any(|c| c.is_uppercase()),
             Role::NestedComponent | Role::HoistParent => true,
             Role::Value => !id.chars().any(|c| c.is_lowercase()),
@@ -293,12 +319,12 @@ pub fn run(ctx: &Ctx) -> Report {
     for role in ROLES {
         for k in KEYWORDS {
             let n = match role {
-                Role::Module | Role::Type => upper_first(k),
+                Role::Module | Role::Type | Role::TypeChoice | Role::TypeEnumerated | Role::TypeCollection | Role::TypeDelegate => upper_first(k),
                 _ => k.to_string(),
             };
             cases.push((role, n));
         }
-        if matches!(role, Role::Type | Role::Module) {
+        if matches!(role, Role::Type | Role::Module | Role::TypeChoice | Role::TypeEnumerated | Role::TypeCollection | Role::TypeDelegate) {
             for t in TYPE_SPECIALS {
                 cases.push((role, t.to_string()));
             }
@@ -310,7 +336,7 @@ pub fn run(ctx: &Ctx) -> Report {
     for i in 0..nrand {
         let mut rng = Rng::for_case(ctx.seed, 16, i);
         let role = ROLES[rng.below(ROLES.len())];
-        let upper = matches!(role, Role::Module | Role::Type);
+        let upper = matches!(role, Role::Module | Role::Type | Role::TypeChoice | Role::TypeEnumerated | Role::TypeCollection | Role::TypeDelegate);
         cases.push((role, random_name(&mut rng, upper)));
     }
     let acc = Acc::new(rep);
